@@ -168,7 +168,7 @@ func registerIntrinsics(P *Program) {
 		return m.st.Bool(a.P.ID != 0 && a.P.ID == b.P.ID)
 	}
 	I[vrtPkg+"Thorough"] = func(m *Machine, fn *ssa.Function, args []Value) Value {
-		return m.st.Bool(m.P.opts.Tier == "thorough")
+		return m.st.Bool(m.P.opts.Tier == "thorough" && !m.P.opts.ForceQuick)
 	}
 	I[vrtPkg+"Variant"] = func(m *Machine, fn *ssa.Function, args []Value) Value {
 		n := m.constInt(args[0].(*Term), "Variant n")
